@@ -519,6 +519,11 @@ func (vc *VC) enterLoop(fr *Frame, li *loopInfo) {
 	if fr.contract != nil {
 		spec = fr.contract.Loops[li.ordinal]
 	}
+	if spec == nil && fr.contract != nil && fr.contract.opt("maporder") && fr.depth == 0 && isMapRangeHeader(h) {
+		// "option maporder": a loop ranging over a map that carries no specification is checked for order
+		// independence on everything it writes, with the trivial invariant
+		spec = &LoopSpec{Commutes: true}
+	}
 	if spec == nil {
 		vc.errorf("%s: loop %d has no invariant (every loop of a function under contract needs one; use 'loop %d: invariant true' for none)", funcKey(fr.fn), li.ordinal, li.ordinal)
 		spec = &LoopSpec{}
@@ -658,6 +663,18 @@ func (vc *VC) enterLoop(fr *Frame, li *loopInfo) {
 		// remember the measure at the header
 		li.measure = vc.evalClauseVal(fr, hst, spec.Decreases, h, nil)
 	}
+	if spec.Commutes && vc.dry == 0 && !vc.inCommute {
+		vc.commuteCheck(fr, li, hst, spec, written, all)
+	}
+}
+
+func isMapRangeHeader(h *ssa.BasicBlock) bool {
+	for _, ins := range h.Instrs {
+		if n, ok := ins.(*ssa.Next); ok && !n.IsString {
+			return true
+		}
+	}
+	return false
 }
 
 func phiName(phi *ssa.Phi) string {
